@@ -304,8 +304,10 @@ class World:
             self.trace.append("embedded-exc:%s" % type(e).__name__)
 
     # ------------------------------------------------------------------ user code: workers
-    def worker(self, req, name="fn", site=None):
-        """Coroutine function whose invocations block on their own gate future."""
+    def worker(self, req, name="fn", site=None, swallow=0):
+        """Coroutine function whose invocations block on their own gate future.
+        swallow > 0: the worker catches its first `swallow` CancelledErrors and carries on waiting (a coroutine
+        that treats the first cancellation as a request and not as an order)."""
         w = self
 
         async def fn(*a, **k):
@@ -326,12 +328,23 @@ class World:
             for m in w.monitors:
                 m()
             w.at_site("wstart")
+            rec["left"] = swallow
             try:
-                await fut
-                rec["state"] = "ok"
+                while True:
+                    try:
+                        await rec["gate"]
+                        rec["state"] = "ok"
+                        break
+                    except asyncio.CancelledError as ce:
+                        rec["cancels"] += 1
+                        rec["cancel_args"] = ce.args
+                        if rec["left"] > 0:
+                            rec["left"] -= 1
+                            rec["gate"] = w.loop.create_future()
+                            continue
+                        rec["state"] = "cancelled"
+                        raise
             except asyncio.CancelledError:
-                rec["cancels"] += 1
-                rec["state"] = "cancelled"
                 raise
             except Exception:
                 rec["state"] = "failed"
@@ -553,8 +566,8 @@ class World:
                 raise Excluded("T3")
 
     # ------------------------------------------------------------------ guarded pool operations
-    def do_cancel(self, pool, ids):
-        """pool.cancel(*ids) with the T1 guard; returns the exception instance or None."""
+    def do_cancel(self, pool, ids, msg=None):
+        """pool.cancel(*ids[, msg=msg]) with the T1 guard; returns the exception instance or None."""
         deliver = True
         for i in ids:
             if i not in pool._tasks_running:
@@ -562,7 +575,10 @@ class World:
         if deliver:
             self.t1_guard(pool, ids)
         try:
-            pool.cancel(*ids)
+            if msg is None:
+                pool.cancel(*ids)
+            else:
+                pool.cancel(*ids, msg=msg)
         except PoolException as e:
             return e
         return None
